@@ -47,6 +47,7 @@ type FuncContract struct {
 	Loops      map[int]*LoopSpec
 	CallAssert []CallAssert
 	CallAssume []CallAssert // assume@after callee#k expr
+	RetAssert  []Clause     // assert@ret expr: holds at every return point (locals in scope; `result`, `result0`.. name the returned values)
 	Inline     bool
 	Trusted    string
 	Pure       bool
@@ -447,6 +448,12 @@ func ParseContractFile(path string) (*ContractFile, error) {
 					return nil, err
 				}
 				cur.CallAssert = append(cur.CallAssert, CallAssert{Callee: callee, K: k, C: c})
+			case "assert@ret":
+				c, err := mk(rest, d.line)
+				if err != nil {
+					return nil, err
+				}
+				cur.RetAssert = append(cur.RetAssert, c)
 			case "assume@after":
 				f := strings.Fields(rest)
 				callee, ks, _ := strings.Cut(f[0], "#")
